@@ -115,8 +115,8 @@ func vBitPoolRecycle(n int) {
 	vreach("end")
 }
 
-func VerifC07_BitPoolGet8()      { vBitPoolGet(8) }
-func VerifC07_BitPoolRecycle8()  { vBitPoolRecycle(8) }
+func VerifC07_BitPoolGet8()     { vBitPoolGet(8) }
+func VerifC07_BitPoolRecycle8() { vBitPoolRecycle(8) }
 
 // Reset from an arbitrary valid pool: afterwards the pool behaves as new
 // (fresh bits 0,1,2.. in order, nothing recycled).
